@@ -7,7 +7,7 @@ single-definition locals expanded), in a canonical positive form."""
 import ast
 
 from .model import norm
-from .util import expand_locals, guarded_by_edge
+from .util import expand_locals, guarded_by_edge, local_defs
 
 UNKNOWN = object()
 
@@ -200,6 +200,37 @@ def must_atoms(g, node, fnode, params=()):
     observer call (`has_room = q.full() is False`) stands for that observation only if nothing that can change it (another call) lies between
     the definition and the test"""
     out = set()
+    from .hsmsites import reaching_defs
+    rd, valmap = reaching_defs(g, params)
+    byid = {n_.id: n_ for n_ in g.nodes}
+
+    def by_reaching_def(test_ast, x):
+        """a local with several definitions in the function but exactly one that reaches this test stands for that definition's (call-free) expression, provided the
+        names it mentions still mean the same at the test"""
+        import copy
+
+        class R(ast.NodeTransformer):
+            def visit_Name(self, n_):
+                if not isinstance(n_.ctx, ast.Load) or n_.id in params:
+                    return n_
+                ds = rd[x].get(n_.id, set())
+                if len(ds) != 1:
+                    return n_
+                d = next(iter(ds))
+                v = valmap.get(d)
+                dn = byid.get(d[0]) if d[0] != 'param' else None
+                if v is None or dn is None or not isinstance(v, ast.AST) or any(isinstance(y, ast.Call) for y in ast.walk(v)):
+                    return n_
+                if not (isinstance(v, (ast.Compare, ast.BoolOp)) or (isinstance(v, ast.UnaryOp) and isinstance(v.op, ast.Not))):
+                    return n_          # only locals that stand for a condition
+                if len(local_defs(fnode).get(n_.id, [])) <= 1:
+                    return n_          # single-definition locals are expanded by expand_locals below
+                for y in ast.walk(v):
+                    if isinstance(y, ast.Name) and y.id not in params and rd[dn].get(y.id, set()) != rd[x].get(y.id, set()):
+                        return n_
+                return copy.deepcopy(v)
+        return R().visit(copy.deepcopy(test_ast))
+
     for x in g.nodes:
         if x.kind != 'test':
             continue
@@ -224,7 +255,7 @@ def must_atoms(g, node, fnode, params=()):
             return True
         for lab, pol in (('true', True), ('false', False)):
             if guarded_by_edge(g, node, x, lab):
-                _atoms(expand_locals(x.ast, fnode, params=params, observers=True, fresh=fresh), pol, out)
+                _atoms(expand_locals(by_reaching_def(x.ast, x), fnode, params=params, observers=True, fresh=fresh), pol, out)
     return out
 
 
